@@ -581,7 +581,19 @@ def has_unordered_list_or_nan(obj) -> bool:
     return '"order_relevant": ["b", false]' in s
 
 
+_PAIRS: Dict[Any, Any] = {}
+_VERDICTS: Dict[Any, Any] = {}
+
+
 def checker_pairs(seed: int, n: int, all_zoo: bool = False):
+    """memoised per process: the pairs are only read by the checks"""
+    key = (seed, n, all_zoo)
+    if key not in _PAIRS:
+        _PAIRS[key] = _checker_pairs(seed, n, all_zoo)
+    return _PAIRS[key]
+
+
+def _checker_pairs(seed: int, n: int, all_zoo: bool = False):
     from vf import canon
     rng = random.Random(f"C20pairs:{seed}")
     out = []
@@ -663,6 +675,13 @@ def checker_pairs(seed: int, n: int, all_zoo: bool = False):
 
 
 def real_verdict(a, b) -> Any:
+    key = (id(a), id(b))
+    if key not in _VERDICTS:
+        _VERDICTS[key] = (_real_verdict(a, b), a, b)          # the objects are kept alive with their verdict
+    return _VERDICTS[key][0]
+
+
+def _real_verdict(a, b) -> Any:
     from basyx.aas import model
     from basyx.aas.examples.data._helper import AASDataChecker
     ch = AASDataChecker(raise_immediately=False)
@@ -708,7 +727,7 @@ def oracle(ctx: C.Ctx, cov: C.Coverage, n: Optional[int] = None, seed: Optional[
         from basyx.aas.adapter.json import write_aas_json_file
         from basyx.aas.adapter.xml import write_aas_xml_file
         # every pair on which the data checker itself raises is taken to the tool: the check function has to turn it into a report
-        for idx, (a, b, what) in enumerate(checker_pairs(seed, ctx.budget(300, 4000))):
+        for idx, (a, b, what) in enumerate(checker_pairs(seed, ctx.budget(300, 4000), all_zoo=ctx.tier != "quick")):
             for order, (x, y) in (("ab", (a, b)), ("ba", (b, a))):
                 v = real_verdict(x, y)
                 if isinstance(v, list) and v and v[0] == "raise":
@@ -719,7 +738,8 @@ def oracle(ctx: C.Ctx, cov: C.Coverage, n: Optional[int] = None, seed: Optional[
                         add(C.Failing(f"tool:json:equivalence:raises:{r[1]}:{what[0]}.{what[1]}", f"files differing in {what[0]}.{what[1]} "
                                       f"({'changed file second' if order == 'ab' else 'changed file first'}): check_json_files_equivalence raised "
                                       f"{r[1]}: {r[2]}", {"seed": seed, "pair": str(what), "fmt": "json", "check": "equivalence", "order": order}))
-        for a, b, what in checker_pairs(seed, n or ctx.budget(60, 1500)):
+        allpairs = checker_pairs(seed, ctx.budget(300, 4000), all_zoo=ctx.tier != "quick") if n is None else checker_pairs(seed, n)
+        for a, b, what in allpairs[: ctx.budget(130, 1500)]:
             for fmt, wr in (("json", write_aas_json_file), ("xml", write_aas_xml_file)):
                 p1, p2 = os.path.join(d, f"eq1.{fmt}"), os.path.join(d, f"eq2.{fmt}")
                 wr(p1, model.DictObjectStore([a])); wr(p2, model.DictObjectStore([b]))
